@@ -209,7 +209,7 @@ def gen_cases(rng, tier):
                 data["address"] = rng.choice(["192.0.2.7", "192.0.2.8", "2001:db8::1"])
             if rng.random() < 0.2:
                 data["nb"] = S.NOW0 + 1000  # inverted window: this confirmation is skipped
-            confs.append({"method": rng.choice(["bearer", "bearer", "bearer", "sender-vouches", "holder-of-key"]),
+            confs.append({"method": rng.choice(["bearer", "bearer", "bearer", "bearer", "sender-vouches", "holder-of-key", "other"]),
                           "data": data})
         c["resp"]["assertions"][0]["subject"]["confs"] = confs
         c["env"]["conv_info"] = rng.choice([None, {"entity_id": S.SP_ID}, {"entity_id": S.SP_ID, "remote_addr": "192.0.2.7"}])
@@ -218,6 +218,52 @@ def gen_cases(rng, tier):
     # cross-dimension stream: every dimension of the SP model varied at once
     for _ in range(150 if tier == "quick" else 4000):
         yield C.random_full(rng, PROP)
+    # the cross-dimension stream through the third entry point (response_factory: the only one that applies the
+    # configured extension schemas)
+    for _ in range(100 if tier == "quick" else 2000):
+        yield C.via_entry(C.random_full(rng, PROP), "response_factory")
+
+    # extension <Condition> elements (condition_ok): entry point x configured schemas x condition types, and the understood
+    # ones crossed with the addressing dimension (an understood extension condition must not displace the audience /
+    # Destination / Recipient tests)
+    def vary_addressing(c, rng):
+        a = c["resp"]["assertions"][0]
+        if rng.random() < 0.7:
+            shape = [[rng.choice(wide) for _ in range(rng.randint(1, 2))] for _ in range(rng.randint(0, 3))]
+            a["conditions"]["audiences"] = [[aud_of(k, rng) for k in r] for r in shape]
+            c["tag"] += "/aud:" + "|".join(",".join(r) for r in shape)
+        if rng.random() < 0.3:
+            dk, d = rng.choice(addr_values(rng, c["env"]["binding"]))
+            c["resp"]["destination"] = d
+            c["tag"] += "/dest:" + dk
+        if rng.random() < 0.3:
+            rk, rcp = rng.choice(addr_values(rng, c["env"]["binding"]))
+            a["subject"]["confs"][0]["data"]["recipient"] = rcp
+            c["env"]["conv_info"] = rng.choice([{"entity_id": S.SP_ID}, {"entity_id": S.SP_ID, "remote_addr": "192.0.2.7"}, None])
+            c["tag"] += "/rcp:" + rk
+        if rng.random() < 0.2:
+            a["conditions"]["nb"] = None
+        if rng.random() < 0.2:
+            a["conditions"]["nooa"] = None
+
+    yield from C.extension_cases(rng, PROP, tier, vary_addressing)
+
+    # two assertions sharing one (sender-chosen) ID, one in clear and one encrypted, one of them addressed elsewhere
+    def spoil_addressing(a, rng):
+        k = rng.choice(["aud-other", "aud-look", "aud-and", "rcp-foreign", "rcp-look"])
+        if k.startswith("aud"):
+            a["conditions"]["audiences"] = {"aud-other": [[OTHER]], "aud-look": [[lookalike(rng, S.SP_ID)]],
+                                            "aud-and": [[S.SP_ID], [OTHER]]}[k]
+        else:
+            d = a["subject"]["confs"][0]["data"]
+            d["recipient"] = "https://evil.example/acs" if k == "rcp-foreign" else lookalike(rng, d["recipient"])
+        return k
+
+    for c in C.dup_id_cases(rng, PROP, tier, spoil_addressing):
+        c["env"]["conv_info"] = {"entity_id": S.SP_ID}   # so that the Recipient is looked at
+        yield c
+    # subject identified by an <EncryptedID> (get_subject), crossed with the addressing dimension
+    yield from C.encrypted_id_cases(rng, PROP, tier, vary_addressing)
 
 
 def finding_key(case, impl, lean):
